@@ -477,6 +477,7 @@ type expCfg struct {
 	es, retain bool
 	push       bool
 	labels     bool
+	aliasOf    string // the experiment carries the reserved experiment-name label of another experiment (legal input)
 }
 
 func i32p(v int32) *int32 { return &v }
@@ -506,6 +507,12 @@ func (s *sim) createExp(c expCfg) {
 	}
 	if c.labels {
 		e.Labels = map[string]string{"team": "a"}
+	}
+	if c.aliasOf != "" {
+		if e.Labels == nil {
+			e.Labels = map[string]string{}
+		}
+		e.Labels["katib.kubeflow.org/experiment"] = c.aliasOf
 	}
 	if c.es {
 		e.Spec.EarlyStopping = &commonv1beta1.EarlyStoppingSpec{AlgorithmName: "medianstop"}
